@@ -306,6 +306,95 @@ def check_props(pid: str):
 
 
 # ----------------------------------------------------------------------------------------------
+# translation tie (design.d/TR.md): the model of selected functions is regenerated from the source
+# ----------------------------------------------------------------------------------------------
+def translation_obligations(pid: str):
+    """For the functions registered for `pid` in harness/pytrans.py: translate the CURRENT source of the tree
+    under test (REPO) to Gallina (build/<pid>/gen/Gen<PID>.v), compile it and the committed equivalence file
+    coq/gen/<PID>_equiv.v (generated code == hand-written model, for all inputs), audit Print Assumptions.
+    Returns None when nothing is registered, else dict(obligations, discharged, failures, functions, theorems,
+    axioms).  Fail closed: a function that cannot be found / translated / type-checked, or an equivalence
+    theorem that no longer compiles, is a failure (the obligations stay undischarged)."""
+    import pytrans
+    client = pytrans.CLIENTS.get(pid)
+    if client is None:
+        return None
+    d = BUILD / (pid + ALT_TAG) / "gen"
+    d.mkdir(parents=True, exist_ok=True)
+    for old in list(d.glob("*.v")) + list(d.glob("*.vo")) + list(d.glob("*.glob")) + list(d.glob("*.vo[ks]")) \
+            + list(d.glob(".*.aux")):
+        old.unlink()
+    equiv_src = VERIF / client.equiv
+    etxt = strip_comments(equiv_src.read_text())
+    names = re.findall(r"Print\s+Assumptions\s+([A-Za-z0-9_'.]+)\s*\.", etxt)
+    thms = re.findall(r"^\s*Theorem\s+([A-Za-z0-9_']+)", etxt, flags=re.M)   # Lemmas are auxiliary
+    res = {"obligations": len(names), "discharged": 0, "failures": [], "functions": [], "theorems": list(names),
+           "axioms": {}, "generated": str(d / f"Gen{pid}.v"), "equivalence_file": client.equiv}
+    try:
+        text, functions, fails = pytrans.translate_pid(pid, REPO)
+    except Exception as e:  # a bug of the translator must not pass silently either
+        text, functions, fails = "", [], [f"translator crashed: {type(e).__name__}: {e}"]
+    res["functions"] = functions
+    gen = d / f"Gen{pid}.v"
+    gen.write_text(text)
+    for f in fails:
+        res["failures"].append("translation tie: " + f)
+    if fails:
+        return res
+    for label, body in (("generated " + gen.name, strip_comments(text)), (client.equiv, etxt)):
+        depth = 0                     # Variable / Hypothesis are allowed inside a Section only (as in audit_sources)
+        for ln, line in enumerate(body.splitlines(), 1):
+            if re.match(r"\s*Section\b", line):
+                depth += 1
+            elif re.match(r"\s*End\b", line) and depth > 0:
+                depth -= 1
+            for m in FORBIDDEN.finditer(line):
+                if m.group(1) in ("Variable", "Variables", "Hypothesis") and depth > 0:
+                    continue
+                res["failures"].append(f"translation tie: forbidden vernacular in {label}:{ln}: {m.group(1)}")
+    ok, log = coq_make(["theories/TR/PyLib.vo"])
+    if not ok:
+        res["failures"].append("translation tie: make theories/TR/PyLib.vo failed: " + "\n".join(log.strip().splitlines()[-6:]))
+        return res
+    extra = ["-Q", str(d), "AgileGen"]
+    rc, out = coqc(gen, timeout=600, extra=extra)
+    if rc != 0:
+        res["failures"].append("translation tie: generated code does not compile (" + gen.name + "): "
+                               + " ".join(out.strip().split())[-600:])
+        return res
+    eq = d / f"{pid}_equiv.v"
+    eq.write_text(equiv_src.read_text())
+    rc, out = coqc(eq, timeout=1200, extra=extra)
+    if rc != 0:
+        res["failures"].append(f"translation tie: the source no longer matches the model — equivalence proof {client.equiv} "
+                               "fails on the code as translated now: " + " ".join(out.strip().split())[-900:])
+        return res
+    for t in thms:
+        if t not in names:
+            res["failures"].append(f"translation tie: theorem {t} of {client.equiv} has no Print Assumptions")
+    blocks = re.split(r"(?=Closed under the global context|Axioms:)", out)
+    verdicts = []
+    for b in blocks:
+        if b.startswith("Closed under the global context"):
+            verdicts.append([])
+        elif b.startswith("Axioms:"):
+            verdicts.append(re.findall(r"^([A-Za-z_][A-Za-z0-9_'.]*)\s*:", b[len("Axioms:"):], flags=re.M))
+    if len(verdicts) != len(names):
+        res["failures"].append(f"translation tie: expected {len(names)} Print Assumptions answers, got {len(verdicts)}")
+        return res
+    for n, ax in zip(names, verdicts):
+        badax = [a for a in ax if a not in ALLOWED_AXIOMS and a.split(".")[-1] not in ALLOWED_AXIOMS
+                 and not a.startswith(PRIMITIVE_PREFIXES)]
+        if ax:
+            res["axioms"][n] = ax
+        if badax:
+            res["failures"].append(f"translation tie: theorem {n} depends on non-allow-listed assumptions {badax}")
+        else:
+            res["discharged"] += 1
+    return res
+
+
+# ----------------------------------------------------------------------------------------------
 # evaluating the model on cases inside Coq
 # ----------------------------------------------------------------------------------------------
 def run_coq_cases(pid: str, preamble: str, terms: list[tuple[int, str]], shard=250, tag="cases", timeout=900):
@@ -493,6 +582,7 @@ def run_check(driver: Driver, argv=None):
 
     # ---- 1. proof obligations -------------------------------------------------------------
     proof = {"obligations": 0, "discharged": 0, "axioms": {}, "failures": [], "theorems": []}
+    translation = None
     if not args.skip_proofs and not args.replay:
         tg = theory_targets(pid)
         for dname in driver.coq_dirs:
@@ -507,6 +597,14 @@ def run_check(driver: Driver, argv=None):
             pr = check_props(pid)
             pr["failures"] = proof["failures"] + pr["failures"]
             proof = pr
+        # translation tie: functions whose model is regenerated from the source on this run
+        translation = translation_obligations(pid)
+        if translation is not None:
+            proof["obligations"] += translation["obligations"]
+            proof["discharged"] += translation["discharged"]
+            proof["failures"] = list(proof["failures"]) + translation["failures"]
+            proof["theorems"] = list(proof["theorems"]) + translation["theorems"]
+            proof["axioms"].update(translation["axioms"])
     proof_broken = bool(proof["failures"])
 
     # ---- 2. cases: corpus + generated ------------------------------------------------------
@@ -655,6 +753,11 @@ def run_check(driver: Driver, argv=None):
             "known_findings_hit": sorted(known_hits),
             "exhaustive": bool(getattr(driver, "exhaustive", False)),
             "notes": notes + list(getattr(driver, "notes", [])),
+            **({"translated_functions": translation["functions"],
+                "translation_checker_cmd": f"harness/pytrans.py {pid} -> {translation['generated']}; coqc -Q coq/theories AgileV "
+                                           f"-Q build/{pid}{ALT_TAG}/gen AgileGen Gen{pid}.v {pid}_equiv.v (copy of "
+                                           f"{translation['equivalence_file']})  # Print Assumptions audited",
+                "translation_theorems": translation["theorems"]} if translation is not None else {}),
         },
         "assumptions": list(driver.assumptions),
         "wall_s": round(time.time() - t0, 2),
